@@ -148,7 +148,7 @@ func makeLexeme(kind int, last bool) lexeme {
 	case lxComment:
 		if kind == tkExpression {
 			txt := []rune{'/', '*'}
-			n := vChoice("cm.n", 4)
+			n := vChoice("cm.n", 3)
 			for i := 0; i < n; i++ {
 				r := vRune("cm")
 				// any body (stars and slashes included) that does not contain the closing "*/"
